@@ -33,6 +33,7 @@ def handle (line : String) : String :=
     else if op == "conn" then connOp toks
     else if op == "strict" then strictOp toks
     else if op == "tlsgate" then tlsgateOp toks
+    else if op == "nlagate" then nlagateOp toks
     else if op == "gui" then guiOp toks
     else if op == "x224_conn" || op == "x224_stream" || op == "gcc_ccr" || op == "lic" || op == "mcs_conn" || op == "sec_conn" then connectOps toks
     else if op == "msg_wr" || op == "msg_rd" || op == "msg_rt" then c18 toks
